@@ -619,6 +619,41 @@ def showAt (env : Env) (st : Store) (t : Name) : String :=
       | none => "h404"
       | some c => if (env.gguf c).isSome then "h200" else "h500"
 
+/-! ## pull (at the level this property needs; the protocol itself is C03's) -/
+
+/-- the download + verify loop of `PullModel` over `manifest.Layers ++ [manifest.Config]`:
+    a blob file that is already there is a cache hit and is NOT verified; otherwise the registry's bytes are
+    stored under the layer's name and verified at once — on a mismatch the file is removed and the pull fails
+    (what was fetched before stays).  `served` = what the registry/CDN returns per hex digest. -/
+def pullLayers (env : Env) (st : Store) (served : List (String × Bytes)) : List Layer → Store × Bool
+  | [] => (st, true)
+  | l :: ls =>
+    match st.blob l.digest.key with
+    | some _ => pullLayers env st served ls
+    | none =>
+      match aget served l.digest.hex with
+      | none => (st, false)
+      | some c =>
+        if env.hash c = l.digest.hex then
+          pullLayers env { st with blobs := aset st.blobs l.digest.key c } served ls
+        else (st, false)
+
+/-- `PullHandler` → `PullModel` after name resolution: `reg` = the manifest the registry serves for the name
+    (`none`: it has none).  The manifest is written only after every layer and the config passed the loop;
+    then the layers of the manifest it replaced are removed unless still in use. -/
+def pullAt (env : Env) (st : Store) (name : Name) (reg : Option Manifest) (served : List (String × Bytes)) :
+    Store × List String :=
+  match reg with
+  | none => (st, ["e500"])
+  | some m =>
+    match pullLayers env st served m.all with
+    | (st1, false) => (st1, ["e500"])
+    | (st1, true) =>
+      let st2 := setManifest st1 name (.readable m)
+      match st.readableAt name with
+      | some mo => (removeLayers env st2 mo.all, ["s"])
+      | none => (st2, ["s"])
+
 /-! ## operations and the step function -/
 
 /-- the same manifest with its model-layer digests in the dash spelling -/
@@ -631,6 +666,8 @@ inductive Op
   | copy (src dst : Name)
   | delete (n : Name)
   | prune
+  /-- POST /api/pull of `n` from a registry that serves manifest `reg` and, per hex digest, the bytes `served` -/
+  | pull (n : Name) (reg : Option Manifest) (served : List (String × Bytes))
   /-- NOT an API operation: a manifest appears under an un-canonicalised name (stores written by versions
       that predate `getExistingName`, a manual copy, the pull inside `create … from`) -/
   | plant (src dst : Name)
@@ -657,6 +694,7 @@ def step (env : Env) (st : Store) (op : Op) (ch : Choice) : Store × List String
   | .copy s d => copyAt st (resolveName env st ch.ord1 s) (resolveName env st ch.ord2 d)
   | .delete n => deleteAt env st (resolveName env st ch.ord1 n)
   | .prune => pruneStartup env st
+  | .pull n reg served => pullAt env st (resolveName env st ch.ord1 n) reg served
   | .plant s d =>
     match st.man s with
     | some f => (setManifest st d f, ["ok"])
